@@ -1956,6 +1956,9 @@ def _affine_form(e, t: str):
                 names = {seg(b) for c in ast.walk(e) if isinstance(c, ast.Call) and isinstance(c.func, ast.Name) and c.func.id in ("min", "max") for b in c.args if not isinstance(b, (ast.Call, ast.BinOp))}
                 if len(names) >= 2:
                     return ("clamped", None, None)
+                # lo + (hi - lo) * t never falls below lo for t >= 0 (rounding is monotone): min(hi, .) alone is enough
+                if inner is not None and inner[0] == "naive" and e.func.id == "min" and any(seg(b) == seg(inner[2]) for b in e.args if b is not a):
+                    return ("clamped", None, None)
                 return inner
         return None
     if isinstance(e, ast.BinOp) and isinstance(e.op, ast.Add):
@@ -1972,6 +1975,17 @@ def _affine_form(e, t: str):
             if pa is not None and pb is not None:
                 return ("lerp", pa, pb)
     return None
+
+
+def _literal_closed(e) -> bool:
+    """a list / tuple written out (possibly as a sum of pieces) one of whose members is the literal 1: a closed family of reference nodes"""
+    if isinstance(e, (ast.List, ast.Tuple)):
+        return any(isinstance(x, ast.Constant) and not isinstance(x.value, bool) and x.value == 1 for x in e.elts)
+    if isinstance(e, ast.BinOp) and isinstance(e.op, ast.Add):
+        return _literal_closed(e.left) or _literal_closed(e.right)
+    if isinstance(e, ast.Call) and seg(e.func) in ("tuple", "list", "np.array") and e.args:
+        return _literal_closed(e.args[0])
+    return False
 
 
 def end_exact(r: R, chk, quals: List[str], rule="END-EXACT"):
@@ -1996,6 +2010,8 @@ def end_exact(r: R, chk, quals: List[str], rule="END-EXACT"):
                 if isinstance(v, ast.Call) and any(f in CLOSED_NODES for f in funcrefs(ctx, v.func)):
                     if isinstance(a.targets[0], ast.Name):
                         closed_names.add(a.targets[0].id)
+                elif isinstance(a.targets[0], ast.Name) and _literal_closed(a.value):
+                    closed_names.add(a.targets[0].id)
         ch = True
         while ch:
             ch = False
